@@ -25,4 +25,8 @@ TEXT = {
   text="c11_accept_iff / c11_ignore_iff / c11_reject_iff / c11_total: the validator's verdict as a total function of (what the payload does to decoding+Validate) x (verifier outcome), proved over the whole finite table in the kernel; the real verifyMessage is executed on the same complete table (incl. panics in decode, type assertion, Validate and verifier, and the unset-verifier path) and compared; delivered value checked to be the decoded header.",
   note="Lean kernel; hand model tied by exhaustive execution; pubsub's reaction to Accept/Ignore/Reject is go-libp2p-pubsub behaviour (not modelled).",
   technique="Lean 4 proof (decision table, kernel case analysis) + exhaustive differential table"),
+ "C10": dict(
+  text="c10_bounded (store reads <= min(amount, MaxRangeRequestSize) for ALL uint64 origin/amount incl. wrap-around and every store shape) and c10_reply_exact (every OK reply is exactly the store's headers origin, origin+1, ... - full, or a prefix only when the range runs past head; origin 0 = head; empty store never yields data) about the model of requestHandler+handleRangeRequest; the real ExchangeServer is driven over mocknet streams with a recording Store proxy on boundary grids, random requests, hash requests and arbitrary bytes and compared reply-for-reply and read-for-read with the model.",
+  note="Lean kernel; hand model tied by executing requests against the real server; MaxRangeRequestSize regenerated from interface.go; libp2p/serde are runtime; 'no hang' is a real-time observation.",
+  technique="Lean 4 proof (UInt64 arithmetic, total function) + differential execution over mocknet"),
 }
